@@ -57,4 +57,5 @@ PROPERTY P_CommitIsQuorumBacked
 PROPERTY P_LeaderCompleteness
 PROPERTY P_TermMonotone
 PROPERTY P_ApplyProgress
+PROPERTY P_AckedDurable
 CHECK_DEADLOCK FALSE
